@@ -325,6 +325,32 @@ int main(int argc, char** argv)
     mon::extra_num("explored_states", n_states);
     mon::extra_num("explored_transitions", n_trans);
     mon::extra("exhaustive_limits", mon::fmt("\"1..%u (complete reachable state space per limit)\"", maxl));
+    // the limit equal to the largest value of the token type (the cursor and the scan index wrap there): run in a child with
+    // an alarm, because a registration that never returns cannot be observed from inside
+    if (mon::slice() == 0) {
+      mon::ctx("map8-limit-255 | fill, one more, release the highest, register again");
+      struct Out { int filled; int last_tok; int phase; };
+      Out* out = mon::shared_page<Out>();
+      auto r = mon::in_child([&] {
+        alarm(20);
+        Map8 m;
+        static int objs[256];
+        for (int i = 0; i < 255; i++) { out->last_tok = m.get_app_pointer_idx(&objs[i], 255); out->filled = i + 1; }
+        out->phase = 1;
+        m.remove_app_ptr(255);
+        out->phase = 2;
+        out->last_tok = m.get_app_pointer_idx(&objs[0], 255); // only 255 is free
+        out->phase = 3;
+        m.get_app_pointer_idx(&objs[1], 255);                  // full: must abort (exception -> exit 77)
+        out->phase = 4;
+      });
+      mon::evals();
+      if (r.signal == SIGALRM) report("map8-limit-255", "registration-never-returns", mon::fmt("limit 255 (the largest uint8_t): after %d registrations (phase %d) the next get_app_pointer_idx did not return within 20 s", out->filled, out->phase));
+      else if (!(r.exited && r.code == 77 && out->phase == 3 && out->last_tok == 255 && out->filled == 255))
+        report("map8-limit-255", "wrong-outcome", mon::fmt("exit %d signal %d phase %d filled %d last token %d (expected: abort in phase 3 after token 255 was handed out again)", r.code, r.signal, out->phase, out->filled, out->last_tok));
+      else n_full_abort++;
+      mon::distinct(0xd255);
+    }
     // every limit 17..254 in thorough, a seed-chosen sample in quick
     for (unsigned l = 13; l <= 254; l++) {
       if (l % mon::nslices() != mon::slice()) continue;
@@ -337,6 +363,40 @@ int main(int argc, char** argv)
     lib.id = 1;
     VS::region_size = 4096;
     owner_histories<VS>("owners-model", [&] { auto s = std::make_unique<rlbox_sandbox<VS>>(); s->create_sandbox(&lib); return s; }, true, rng);
+    // an application object that happens to be a function pointer (T = int (*)(int), the app pointer is a data pointer to it):
+    // registration succeeds like for any other object, the token resolves to it, and a refused registration leaks no token
+    {
+      auto s = std::make_unique<rlbox_sandbox<VS>>();
+      s->create_sandbox(&lib);
+      using fn_t = int (*)(int);
+      static fn_t fpvar = nullptr;
+      static int plain;
+      mon::ctx("owners-model | app pointer to a function-pointer variable");
+      bool okk = false;
+      bool ab = mon::aborts([&] {
+        auto ap = s->get_app_pointer(&fpvar);
+        auto t = ap.to_tainted();
+        okk = s->is_pointer_in_sandbox_memory(t.UNSAFE_unverified()) && s->lookup_app_ptr(t) == &fpvar;
+        ap.unregister();
+      });
+      mon::evals();
+      if (ab || !okk) report("owners-model", "app-pointer-to-function-pointer-object-refused-or-wrong", ab ? "get_app_pointer(&function_pointer_variable) aborted" : "token outside the sandbox or wrong lookup");
+      else n_lookup_ok++;
+      // whatever happened above, no token may have been left behind: the next registration gets the lowest token again
+      unsigned tok = 0;
+      bool ab2 = mon::aborts([&] { auto ap2 = s->get_app_pointer(&plain); tok = static_cast<unsigned>(tok64(ap2.UNSAFE_sandboxed(*s))); ap2.unregister(); });
+      // (the cursor moves on after each registration, so only the count of live tokens is judged: fill up and count)
+      unsigned live_cap = 0;
+      {
+        std::vector<app_pointer<int*, VS>> held;
+        static int y;
+        for (;;) { bool full = mon::aborts([&] { held.push_back(s->get_app_pointer(&y)); }); if (full) break; live_cap++; if (live_cap > 5000) break; }
+        for (auto& h : held) h.unregister();
+      }
+      if (ab2 || live_cap != 4095) report("owners-model", "token-leaked-by-a-refused-registration", mon::fmt("after the registration above only %u of 4095 tokens can be handed out (token of the next registration: %u)", live_cap, tok));
+      else n_full_abort++;
+      s->destroy_sandbox();
+    }
     // fill the 4 KiB model sandbox to its limit: 4095 tokens, then one more
     {
       auto s = std::make_unique<rlbox_sandbox<VS>>();
